@@ -971,9 +971,9 @@ func main() {
 	var jobs []job
 	parts := 8
 	for p := 0; p < parts; p++ {
-		jobs = append(jobs, job{"digest", p, run.N(20000, 2000000) / parts, false})
-		jobs = append(jobs, job{"sched-seq", p, run.N(400, 20000) / parts, false})
-		jobs = append(jobs, job{"spend", p, run.N(1200, 60000) / parts, false})
+		jobs = append(jobs, job{"digest", p, run.N(60000, 2000000) / parts, false})
+		jobs = append(jobs, job{"sched-seq", p, run.N(800, 20000) / parts, false})
+		jobs = append(jobs, job{"spend", p, run.N(2400, 60000) / parts, false})
 	}
 	cparts := 4
 	for p := 0; p < cparts; p++ {
